@@ -242,7 +242,15 @@ namespace bloch::runtime {
             Value value;
             bool tracked = false;
             bool initialized = false;
+            // Creation order of the entry. A scope is a hash map, so without this the order in
+            // which its variables die (and their destructors run) would follow the hash of
+            // their names.
+            std::size_t seq = nextVarSeq();
         };
+        static std::size_t nextVarSeq() {
+            static std::size_t counter = 0;
+            return ++counter;
+        }
         std::vector<std::unordered_map<std::string, VarEntry>> m_env;
         // Index into m_env of the first scope of each active call (function, method,
         // constructor, destructor, initialiser). Name lookup never goes below the innermost
